@@ -313,3 +313,14 @@ TRUSTED = TRUSTED + [
 TRUSTED = TRUSTED + [
     "the `@_validate_fromutc_inputs` decorator is re-translated too (its inner function, the wrapped method as a parameter; `isinstance(dt, datetime)` statically true) and validated through the public fromutc of range zones on attached / foreign / naive datetimes (op tzgen.range.fromutc_pub)",
 ]
+
+
+# --- translator tie for tzutc / tzoffset (wt-tzfile): their methods and tzoffset.__init__ are re-translated from tz/tz.py on every run
+# (harness/translate_tzhelp.py -> Generated/TzFixedKernels.lean; obligations in Properties/TzFixedGen.lean) and validated by tzhelp.fixed / tzhelp.utc
+_correspondence_without_tzfixed = correspondence
+
+
+def correspondence(ctx):
+    _correspondence_without_tzfixed(ctx)
+    import tzhelplib
+    tzhelplib.validate_fixed(ctx)
